@@ -72,9 +72,16 @@ def repo_with_extras(s, rng, cs, n_targets, delegated, extras_on=True):
                       delegations={"keys": [8], "roles": [{"name": "B", "keyids": [8], "threshold": 1, "paths": ["a/b/*"],
                                                            "terminating": rng.random() < 0.3}]})
         dl = [("A", 3, a), ("B", 2, b)]
+        zeta = None
+        if rng.random() < 0.6:
+            # a sibling listed BEFORE A although its name sorts after it, with overlapping paths: the order of the
+            # delegations is the order of trust and must survive an update
+            zeta = s.targets(version=4, targets=entries("z/", 1), sigs=scen.valid([7]), extra=x("zeta"))
+            dl.append(("Zeta", 4, zeta))
         # the "terminating" flag of a delegation is data to carry over: it must not change what an update writes
         term = rng.random() < 0.5
-        deleg = {"keys": [7], "roles": [{"name": "A", "keyids": [7], "threshold": 1, "paths": ["a/*"], "terminating": term}]}
+        deleg = {"keys": [7], "roles": ([{"name": "Zeta", "keyids": [7], "threshold": 1, "paths": ["z/*", "a/*"]}] if zeta else [])
+                                       + [{"name": "A", "keyids": [7], "threshold": 1, "paths": ["a/*"], "terminating": term}]}
     tgt = s.targets(version=1, targets=entries("t", n_targets), delegations=deleg, extra=x("targets"))
     metas = {"targets.json": scen.meta(tgt, 1)}
     for name, v, d in dl:
